@@ -129,8 +129,6 @@ def reviewedNotAlways : List (String × String × String × String) := [
   ("src/rules/no_inferrable_types.rs", "NoInferrableTypesVisitor", "visit_private_prop", "sometimes"),
   ("src/rules/no_invalid_regexp.rs", "NoInvalidRegexpVisitor", "visit_regex", "never"),
   ("src/rules/no_redeclare.rs", "NoRedeclareVisitor", "visit_fn_decl", "sometimes"),
-  ("src/rules/no_redeclare.rs", "NoRedeclareVisitor", "visit_var_declarator", "never"),
-  ("src/rules/no_redeclare.rs", "NoRedeclareVisitor", "visit_param", "never"),
   ("src/rules/no_redeclare.rs", "NoRedeclareVisitor", "visit_class_prop", "sometimes"),
   ("src/rules/no_undef.rs", "NoUndefVisitor", "visit_member_expr", "sometimes"),
   ("src/rules/no_undef.rs", "NoUndefVisitor", "visit_unary_expr", "sometimes"),
@@ -192,7 +190,6 @@ def reviewedNotAlways : List (String × String × String × String) := [
   ("src/rules/prefer_const.rs", "PreferConstVisitor", "visit_arrow_expr", "sometimes"),
   ("src/rules/prefer_const.rs", "PreferConstVisitor", "visit_class", "sometimes"),
   ("src/rules/prefer_const.rs", "PreferConstVisitor", "visit_constructor", "sometimes"),
-  ("src/rules/require_yield.rs", "RequireYieldVisitor", "visit_yield_expr", "never"),
   ("src/rules/verbatim_module_syntax.rs", "IdCollector", "visit_ident", "never"),
   ("src/rules/verbatim_module_syntax.rs", "IdCollector", "visit_binding_ident", "never"),
   ("src/rules/verbatim_module_syntax.rs", "IdCollector", "visit_import_decl", "sometimes"),
